@@ -106,6 +106,29 @@ def verify_function(qualname):
                 rec = {"name": ob.name, "kind": ob.kind, "function": qualname, "status": "undecided", "backend": "solver-error", "ms": 0.0, "note": str(exc)}
             recs.append(rec)
         desc.setdefault("callee_contracts_used", sorted(eng.used_contracts))
+    # CPython differential check of the encoder on this very function (DESIGN section 10)
+    try:
+        from . import policy, selftest
+
+        import random as _r
+
+        inputs = [a for (_q, a) in policy.runtime_inputs(qualname, quick=True, cap=2000)]
+        _r.Random(3).shuffle(inputs)
+        tally = {"agree": 0, "disagree": 0, "unsupported": 0}
+        first_bad = None
+        for a in inputs[: int(os.environ.get("PYVC_DIFF_N", "10"))]:
+            verdict, detail = selftest.differential(qualname, list(a))
+            tally[verdict] += 1
+            if verdict == "disagree" and first_bad is None:
+                first_bad = f"{a!r}: {detail[:200]}"
+        desc["encoder_vs_cpython"] = tally
+        if first_bad is not None:
+            for r in recs:
+                if r["status"] == "discharged":
+                    r["status"] = "undecided"
+                    r["note"] = "ENCODER DISAGREES WITH CPYTHON on " + first_bad
+    except Exception as exc:  # noqa: BLE001
+        desc["encoder_vs_cpython"] = f"not run: {type(exc).__name__}: {exc}"
     desc["seconds"] = round(time.time() - t0, 2)
     return qualname, desc, recs
 
